@@ -1672,3 +1672,286 @@ def e_aperture_patches(c):
         c.call(ap.to_mask)
         c.call(ap.do_photometry, c.data, mask=c.mask)       # photometry AFTER plotting with the same object
         c.call(ap.copy)
+
+
+# ----------------------------------------------------------------------
+# fourth layer (follow-up 2): every small "parameter-like" array-valued argument as a caller-owned ndarray
+# (int / float / strided view) or list, with values inside, at and beyond the valid / clamped range, so that the
+# clamping, sorting, normalising, rounding and broadcasting branches run on the caller's object.
+# ----------------------------------------------------------------------
+def _rng_mode(c):
+    return ['inside', 'at', 'beyond'][int(c.rng.integers(0, 3))]
+
+
+def _size2(c, shape, mode, odd=False, inside=(7, 9)):
+    ny, nx = shape
+    if mode == 'inside':
+        v = list(inside)
+    elif mode == 'at':
+        v = [ny, nx]
+    else:
+        v = [[ny + 24, inside[1]], [inside[0], nx + 11], [ny + 5, nx + 8]][int(c.rng.integers(0, 3))]
+    if odd:
+        v = [int(x) | 1 for x in v]
+    return v
+
+
+@entry('param_background')
+def e_param_background(c):
+    import photutils.background as B
+    mode = _rng_mode(c)
+    box = c.par(_size2(c, c.shape, mode, inside=(8, 9)), 'box_size', kinds=('int', 'intview', 'float', 'list'))
+    fs = c.par([[3, 3], [1, 5], [5, 1], [c.shape[0] | 1, 3]][int(c.rng.integers(0, 4))], 'filter_size',
+               kinds=('int', 'intview', 'list'))
+    b = c.call(B.Background2D, c.data, box, mask=c.mask, filter_size=fs,
+               exclude_percentile=float(c.rng.choice([10.0, 80.0])), fill_value=0.0)
+    c.read_all(b)
+    lb = c.call(B.LocalBackground, 4.0, 8.0)
+    if lb is not None:
+        c.call(lb, c.data, c.par(c.xy[:, 0], 'x', kinds=('float', 'int', 'list')),
+               c.par(c.xy[:, 1], 'y', kinds=('float', 'int', 'list')), mask=c.mask)
+        c.call(lb, c.data, c.par([-5.0, c.xy[0, 0]], 'x', kinds=('float', 'list')),
+               c.par([c.shape[0] + 20.0, c.xy[0, 1]], 'y', kinds=('float', 'list')))      # beyond the image
+
+
+@entry('param_centroids')
+def e_param_centroids(c):
+    from photutils.centroids import centroid_com, centroid_quadratic, centroid_sources
+    d, e, m = _cutout(c)
+    shp = np.shape(d)
+    mode = _rng_mode(c)
+    fit = c.par(_size2(c, shp, mode, odd=True, inside=(5, 5)), 'fit_boxsize', kinds=('int', 'intview', 'list'))
+    search = c.par(_size2(c, shp, _rng_mode(c), odd=True, inside=(3, 5)), 'search_boxsize',
+                   kinds=('int', 'intview', 'list'))
+    c.call(centroid_quadratic, d, fit_boxsize=fit, search_boxsize=search, mask=m)
+    c.call(centroid_quadratic, d, xpeak=7, ypeak=7, fit_boxsize=fit)
+    big = c.par(_size2(c, c.shape, _rng_mode(c), odd=True, inside=(9, 11)), 'box_size',
+                kinds=('int', 'intview', 'list'))
+    x = c.par(c.xy[:, 0], 'xpos', kinds=('float', 'int', 'list'))
+    y = c.par(c.xy[:, 1], 'ypos', kinds=('float', 'int', 'list'))
+    c.call(centroid_sources, c.data, x, y, box_size=big, mask=c.mask, centroid_func=centroid_com)
+    c.call(centroid_sources, c.data, x, y, box_size=big, centroid_func=centroid_quadratic, fit_boxsize=fit)
+    # positions beyond the image (raises) / at the edge
+    c.call(centroid_sources, c.data, c.par([1.0, c.shape[1] + 5.0], 'xpos', kinds=('float', 'list')),
+           c.par([1.0, 3.0], 'ypos', kinds=('float', 'list')), box_size=5)
+    fp = c.par(np.ones(_size2(c, c.shape, mode, odd=True, inside=(5, 7)), dtype=int), 'footprint',
+               kinds=('int', 'float'))
+    c.call(centroid_sources, c.data, x, y, box_size=None, footprint=fp)
+
+
+@entry('param_detection')
+def e_param_detection(c):
+    import photutils.detection as D
+    from photutils.detection import find_peaks
+    mode = _rng_mode(c)
+    ny, nx = c.shape
+    bw = c.par({'inside': [2, 3], 'at': [ny // 2, nx // 2], 'beyond': [ny + 3, 4]}[mode], 'border_width',
+               kinds=('int', 'intview', 'list'))
+    box = c.par(_size2(c, c.shape, _rng_mode(c), odd=True, inside=(5, 3)), 'box_size', kinds=('int', 'intview', 'list'))
+    thr_int = c.par(np.full(c.shape, int(_thr(c))), 'threshold', kinds=('int', 'float'))
+    if c.unit is not None:
+        thr_int = c.own(np.asarray(thr_int) * c.unit, 'threshold_q')
+    c.call(find_peaks, c.data, thr_int, box_size=box, border_width=bw, mask=c.mask,
+           npeaks=c.par(3, 'npeaks', kinds=('plain', 'float')))
+    fp = c.par(np.ones(_size2(c, c.shape, mode, odd=True, inside=(3, 5)), dtype=int), 'footprint', kinds=('int', 'float'))
+    c.call(find_peaks, c.data, c.q(_thr(c)), footprint=fp, border_width=c.par(2, 'border_width', kinds=('plain', 'int')))
+    # finders: xycoords as int / float / list, some outside the image; kernel of int dtype / larger than the image
+    xyc = np.vstack([c.xy, [[-3.0, 2.0], [nx + 4.0, ny + 2.0]]]) if c.rng.random() < 0.3 else np.array(c.xy)
+    xy = c.par(np.rint(xyc) if c.rng.random() < 0.5 else xyc, 'xycoords', kinds=('int', 'float'))
+    for name in ('DAOStarFinder', 'IRAFStarFinder'):
+        f = c.call(getattr(D, name), c.q(_thr(c) * 1.5), c.fwhm, xycoords=xy,
+                   brightest=c.par(2, 'brightest', kinds=('plain', 'int')))
+        if f is not None:
+            c.call(f, c.data, mask=c.mask)
+    ksz = {'inside': 7, 'at': min(ny, nx) | 1, 'beyond': (max(ny, nx) + 4) | 1}[mode]
+    yk, xk = np.mgrid[-(ksz // 2):ksz // 2 + 1, -(ksz // 2):ksz // 2 + 1]
+    kern = np.exp(-(xk ** 2 + yk ** 2) / (2 * c.sigma ** 2))
+    kernel = c.par(np.rint(kern * 10) if c.rng.random() < 0.5 else kern * 2.5, 'kernel', kinds=('int', 'float'))
+    sf = c.call(D.StarFinder, c.q(_thr(c) * 1.5), kernel, min_separation=c.par(3.0, 'min_separation', kinds=('plain', 'float')))
+    if sf is not None:
+        c.call(sf, c.data, mask=c.mask)
+        c.call(sf.find_stars, c.data)
+
+
+@entry('param_psf')
+def e_param_psf(c):
+    from photutils.datasets import make_model_image
+    from photutils.psf import (EPSFBuilder, ImagePSF, PSFPhotometry, fit_2dgaussian, fit_fwhm,
+                               make_psf_model_image)
+    rng = c.rng
+    mode = _rng_mode(c)
+    model = _psf_model(c)
+    fshape = c.par(_size2(c, c.shape, mode, odd=True, inside=(5, 7)), 'fit_shape', kinds=('int', 'intview', 'list'))
+    bounds = c.par([2.0, 3.0], 'xy_bounds', kinds=('float', 'int', 'list'))
+    p = c.call(PSFPhotometry, model, fshape, aperture_radius=4.0,
+               xy_bounds=bounds, progress_bar=False)
+    if p is not None:
+        t = c.call(p, c.data, mask=c.mask, error=c.error, init_params=c.star_table())
+        if t is not None:
+            pshape = c.par(_size2(c, c.shape, _rng_mode(c), odd=True, inside=(7, 9)), 'psf_shape',
+                           kinds=('int', 'intview', 'list'))
+            c.call(p.make_model_image, c.shape, psf_shape=pshape)
+            c.call(p.make_residual_image, c.data, psf_shape=pshape)
+    xy = c.par(np.rint(c.xy) if rng.random() < 0.5 else c.xy, 'xypos', kinds=('int', 'float', 'list'))
+    c.call(fit_2dgaussian, c.data, xypos=xy, fit_shape=fshape, mask=c.mask,
+           fwhm=(c.par(np.full(len(c.xy), c.fwhm), 'fwhm', kinds=('float', 'list')) if rng.random() < 0.3 else c.fwhm))
+    c.call(fit_fwhm, c.data, xypos=xy, fit_shape=c.par([5, 5], 'fit_shape', kinds=('int', 'list')))
+    mshape = c.par(_size2(c, c.shape, _rng_mode(c), odd=True, inside=(9, 9)), 'model_shape',
+                   kinds=('int', 'intview', 'list'))
+    ishape = c.shape
+    c.call(make_model_image, ishape, model, c.star_table(), model_shape=mshape)
+    c.call(make_model_image, c.par(list(c.shape), 'shape', kinds=('int', 'list')), model, c.star_table())   # rejected
+    c.call(make_psf_model_image, ishape, model, c.par(4, 'n_sources', kinds=('plain',)), model_shape=mshape,
+           border_size=c.par([3, 4], 'border_size', kinds=('int', 'list')), seed=1,
+           flux=c.par([100, 200], 'flux_range', kinds=('int', 'float', 'list')))
+    yy, xx = np.mgrid[-8:9, -8:9]
+    dd = np.exp(-(xx ** 2 + yy ** 2) / (2 * c.sigma ** 2))
+    ovs = c.par([[1, 1], [2, 3], [4, 1]][int(rng.integers(0, 3))], 'oversampling', kinds=('int', 'intview', 'list', 'float'))
+    ip = c.call(ImagePSF, c.plain(dd, 'psf_data'), oversampling=ovs,
+                origin=c.par([8.0, 8.0], 'origin', kinds=('float', 'int', 'list')))
+    if ip is not None:
+        c.call(ip, c.plain(rng.uniform(0, 8, 6), 'x'), c.plain(rng.uniform(0, 8, 6), 'y'))
+        c.call(setattr, ip, 'oversampling', c.par([2, 2], 'oversampling', kinds=('int', 'list')))
+    c.call(EPSFBuilder, oversampling=c.par([2, 2], 'oversampling', kinds=('int', 'list')),
+           shape=c.par([21, 23], 'shape', kinds=('int', 'list')), maxiters=1, progress_bar=False,
+           recentering_boxsize=c.par([5, 5], 'recentering_boxsize', kinds=('int', 'list')))
+
+
+@entry('param_shapes')
+def e_param_shapes(c):
+    from photutils.aperture import CircularAperture
+    from photutils.datasets import make_model_params, make_noise_image, make_wcs
+    from photutils.psf import extract_stars
+    from photutils.psf.matching import TukeyWindow
+    from photutils.segmentation import make_2dgaussian_kernel
+    from photutils.utils import CutoutImage, circular_footprint
+    from astropy.nddata import NDData
+    rng = c.rng
+    mode = _rng_mode(c)
+    shp = c.par(list(c.shape), 'shape', kinds=('int', 'intview', 'list'))
+    c.call(make_noise_image, shp, distribution='gaussian', mean=0.0, stddev=1.0, seed=0)
+    c.call(make_model_params, shp, 4, border_size=c.par([2, 3], 'border_size', kinds=('int', 'list')),
+           flux=c.par([1, 5], 'flux', kinds=('int', 'float', 'list')), seed=0)
+    c.call(make_wcs, shp)
+    c.call(TukeyWindow(0.4), shp)
+    c.call(make_2dgaussian_kernel, c.fwhm, c.par([5, 7], 'size', kinds=('int', 'list')))
+    c.call(circular_footprint, c.par(3, 'radius', kinds=('plain', 'int')))
+    pos = c.par({'inside': [20.0, 18.0], 'at': [0.0, 0.0], 'beyond': [-30.0, 500.0]}[mode], 'position',
+                kinds=('float', 'int', 'list'))
+    csz = c.par(_size2(c, c.shape, _rng_mode(c), odd=True, inside=(9, 11)), 'cutout_shape', kinds=('int', 'intview', 'list'))
+    ci = c.call(CutoutImage, c.data, pos, csz, mode=str(rng.choice(['trim', 'partial'])))
+    c.read_all(ci)
+    ap = c.call(CircularAperture, c.par(np.rint(c.xy), 'positions', kinds=('int', 'float', 'list')),
+                4.0)
+    if ap is not None:
+        m = c.call(ap.to_mask)
+        if m:
+            c.call(m[0].to_image, shp)
+            c.call(m[0].get_overlap_slices, shp)
+        bb = c.call(lambda: ap.bbox)
+        if bb:
+            c.call(bb[0].get_overlap_slices, shp)
+        c.call(ap.do_photometry, c.data, mask=c.mask)
+    nd = c.call(NDData, c.data)
+    if nd is not None:
+        c.call(extract_stars, nd, c.star_table(('x', 'y')),
+               size=c.par(_size2(c, c.shape, mode, odd=True, inside=(9, 11)), 'size', kinds=('int', 'intview', 'list')))
+
+
+@entry('param_segmentation')
+def e_param_segmentation(c):
+    from photutils.segmentation import (SegmentationImage, SourceCatalog, SourceFinder, deblend_sources,
+                                        detect_sources, detect_threshold)
+    rng = c.rng
+    mode = _rng_mode(c)
+    base = _segm(c)
+    if base is None:
+        return
+    thr = c.par(np.full(c.shape, int(_thr(c))), 'threshold', kinds=('int', 'float'))
+    if c.unit is not None:
+        thr = c.own(np.asarray(thr) * c.unit, 'threshold_q')
+    c.call(detect_sources, c.data, thr, c.par(5, 'npixels', kinds=('plain', 'int')), mask=c.mask)
+    c.call(detect_threshold, c.data, c.par(2.0, 'nsigma', kinds=('plain', 'float')),
+           background=c.arr(np.full(c.shape, 0.0), 'background', secondary=True),
+           error=c.arr(np.ones(c.shape), 'error1', secondary=True))
+    f = c.call(SourceFinder, c.par([5, 3], 'npixels', kinds=('int', 'intview', 'list')), nlevels=4, progress_bar=False)
+    if f is not None:
+        c.call(f, c.data, c.q(_thr(c)), mask=c.mask)
+    s = c.call(SegmentationImage, c.plain(base.data.copy(), 'segm_array', dtype=int))
+    if s is None:
+        return
+    labs = np.asarray(s.labels)
+    sel = {'inside': labs[:2], 'at': labs[::-1], 'beyond': np.r_[labs[:1], labs.max() + 7]}[mode]
+    if rng.random() < 0.3 and len(labs) > 1:
+        sel = np.r_[sel, sel[:1]]                     # duplicates, unsorted
+    la = c.par(sel, 'labels', kinds=('int', 'intview', 'list'))
+    c.call(s.check_labels, la)
+    c.call(s.get_indices, la)
+    c.call(s.get_areas, la)
+    c.call(deblend_sources, c.data, s, 4, labels=la, nlevels=4, progress_bar=False)
+    cat = c.call(SourceCatalog, c.data, s, error=c.error, mask=c.mask, progress_bar=False,
+                 kron_params=c.par([2.5, 1.4, 0.0], 'kron_params', kinds=('float', 'list')))
+    if cat is not None:
+        c.call(cat.get_labels, la)
+        c.call(cat.kron_photometry, c.par([2.0, 1.0], 'kron_params', kinds=('float', 'list')))
+        c.call(cat.make_cutouts, c.par(_size2(c, c.shape, _rng_mode(c), odd=True, inside=(9, 9)), 'shape',
+                                       kinds=('int', 'intview', 'list')))
+        c.call(cat.to_table, columns=c.own(['label', 'xcentroid', 'kron_flux'], 'columns'))
+    c.call(s.keep_labels, la, relabel=bool(rng.integers(0, 2)))
+    s2 = c.call(SegmentationImage, c.plain(base.data.copy(), 'segm_array', dtype=int))
+    if s2 is not None:
+        c.call(s2.reassign_labels, la, c.par(int(labs.max()) + 3, 'new_label', kinds=('plain', 'int')))
+        c.call(s2.remove_labels, c.par(np.asarray(s2.labels)[:1], 'labels', kinds=('int', 'list')), relabel=True)
+        c.call(s2.remove_border_labels, c.par({'inside': 2, 'at': min(c.shape) // 2, 'beyond': max(c.shape) + 5}[mode],
+                                              'border_width', kinds=('plain', 'int')))
+        c.call(s2.make_source_mask, size=c.par([3, 5], 'size', kinds=('int', 'list')))
+        c.call(s2.relabel_consecutive, c.par(4, 'start_label', kinds=('plain', 'int')))
+
+
+@entry('param_profiles_apertures')
+def e_param_profiles_apertures(c):
+    import photutils.profiles as P
+    from photutils.aperture import (ApertureStats, CircularAnnulus, CircularAperture, EllipticalAperture,
+                                    aperture_photometry)
+    from photutils.psf import SourceGrouper
+    from photutils.utils import ShepardIDWInterpolator
+    rng = c.rng
+    mode = _rng_mode(c)
+    x, y = c.xy[0]
+    rmax = {'inside': 8, 'at': min(c.shape) // 2, 'beyond': max(c.shape) + 10}[mode]
+    r0 = np.arange(0, rmax + 1, max(1, rmax // 8))
+    radii = c.par(r0, 'radii', kinds=('int', 'intview', 'float', 'list'))
+    xyc = c.par([x, y] if rng.random() < 0.7 else [round(x), round(y)], 'xycen', kinds=('float', 'int', 'list'))
+    rp = c.call(P.RadialProfile, c.data, xyc, radii, error=c.error, mask=c.mask)
+    c.read_all(rp)
+    cog = c.call(P.CurveOfGrowth, c.data, xyc, c.par(r0[1:], 'radii', kinds=('int', 'intview', 'float', 'list')),
+                 mask=c.mask)
+    c.read_all(cog)
+    if cog is not None:
+        c.call(cog.normalize)
+        c.call(cog.calc_ee_at_radius, c.par([1.0, float(rmax) + 5.0], 'radius', kinds=('float', 'int', 'list')))
+        c.call(cog.calc_radius_at_ee, c.par([0.5, 0.1, 1.5], 'ee', kinds=('float', 'list')))      # unsorted, beyond 1
+    c.call(P.RadialProfile, c.data, xyc, c.par(r0[::-1], 'radii', kinds=('int', 'float', 'list')))   # unsorted: raises
+    pos_v = np.vstack([np.rint(c.xy), [[-4.0, 3.0], [c.shape[1] + 6.0, 5.0]]])                       # some off-image
+    pos = c.par(pos_v, 'positions', kinds=('int', 'float', 'list'))
+    ap = c.call(CircularAperture, pos, 3.0)
+    an = c.call(CircularAnnulus, pos, 4.0, 7.0)
+    el = c.call(EllipticalAperture, pos, 5.0, 3.0, theta=0.5)
+    if ap is not None:
+        c.call(aperture_photometry, c.data, c.own([a for a in (ap, an, el) if a is not None], 'apertures'),
+               error=c.error, mask=c.mask, subpixels=3, method='subpixel')
+        st = c.call(ApertureStats, c.data, ap, error=c.error, mask=c.mask,
+                    local_bkg=c.par(np.zeros(len(pos_v)), 'local_bkg', kinds=('float', 'int', 'list')))
+        if st is not None:
+            c.call(st.get_ids, c.par([2, 1], 'ids', kinds=('int', 'list')))
+            c.call(getattr, st, 'sum')
+            c.call(getattr, st, 'centroid')
+    g = c.call(SourceGrouper, c.par(12.0, 'min_separation', kinds=('plain', 'float')))
+    if g is not None:
+        c.call(g, c.par(np.rint(c.xy[:, 0]), 'x', kinds=('int', 'float', 'list')),
+               c.par(np.rint(c.xy[:, 1]), 'y', kinds=('int', 'float', 'list')))
+    coords = c.par(np.rint(rng.uniform(0, 10, (30, 2))), 'coordinates', kinds=('int', 'float', 'list'))
+    vals = c.par(np.rint(rng.normal(0, 5, 30)), 'values', kinds=('int', 'float', 'list'))
+    f = c.call(ShepardIDWInterpolator, coords, vals)
+    if f is not None:
+        c.call(f, c.par([[1, 2], [50, 60]], 'positions', kinds=('int', 'float', 'list')), n_neighbors=4)
